@@ -1,10 +1,9 @@
 //! agg stream (C21): aggregates and grouping through real Cypher queries.
 //!   agg <fn> <v> <v> …      fn ∈ count* count sum avg min max collect countd sumd avgd mind maxd collectd
 //!       `UNWIND $xs AS x RETURN <fn>(x) AS r`                 -> `<type> <payload>` of r
+//!       (+ `@…` temporal oracle tokens for the strings among the values, as in the value stream)
 //!   group <k> <k> …         `UNWIND $xs AS x RETURN x AS k, count(*) AS c`
 //!       -> `<number of result rows>` | sorted `key:count` list
-//!          (`unspec` when the keys contain both +0.0 and -0.0: Eq says equal, Hash differs, HashMap
-//!           behaviour is then not a function of the input)
 use super::{State, StreamDef, no_child};
 use crate::qeng::{ENG, err_class, single};
 use crate::rng::Rng;
@@ -34,23 +33,11 @@ pub const FNS: &[(&str, &str)] = &[
     ("collectd", "collect(DISTINCT x)"),
 ];
 
-fn zero_signs(v: &Value, pos: &mut bool, neg: &mut bool) {
-    match v {
-        Value::Float(f) if *f == 0.0 => {
-            if f.is_sign_negative() {
-                *neg = true
-            } else {
-                *pos = true
-            }
-        }
-        Value::List(xs) => xs.iter().for_each(|x| zero_signs(x, pos, neg)),
-        Value::Map(m) => m.values().for_each(|x| zero_signs(x, pos, neg)),
-        _ => {}
-    }
-}
-
 impl State for S {
     fn step(&mut self, ws: &[&str]) -> String {
+        let orc: Vec<&str> = ws.iter().filter(|w| w.starts_with('@')).copied().collect();
+        let ws: Vec<&str> = ws.iter().filter(|w| !w.starts_with('@')).copied().collect();
+        let ws = &ws[..];
         match ws[0] {
             "agg" if ws.len() >= 2 => {
                 let Some((_, text)) = FNS.iter().find(|(n, _)| *n == ws[1]) else { return "bad-op".into() };
@@ -60,6 +47,9 @@ impl State for S {
                         Some(v) => xs.push(v),
                         None => return "bad-op".into(),
                     }
+                }
+                if !vtok::oracle_ok(&xs.iter().collect::<Vec<_>>(), &orc) {
+                    return "bad-oracle".into();
                 }
                 let q = format!("UNWIND $xs AS x RETURN {} AS r", text);
                 match ENG.with(|e| e.run(&q, &[("xs", Value::List(xs))])).and_then(single) {
@@ -74,11 +64,6 @@ impl State for S {
                         Some(v) => xs.push(v),
                         None => return "bad-op".into(),
                     }
-                }
-                let (mut p, mut n) = (false, false);
-                xs.iter().for_each(|x| zero_signs(x, &mut p, &mut n));
-                if p && n {
-                    return "unspec".into();
                 }
                 match ENG.with(|e| e.run("UNWIND $xs AS x RETURN x AS k, count(*) AS c", &[("xs", Value::List(xs))])) {
                     Ok(rows) => {
@@ -110,6 +95,11 @@ fn emit(out: &mut dyn Write, head: &str, xs: &[Value]) {
     for x in xs {
         s.push(' ');
         s.push_str(&vtok::show(x));
+    }
+    // min / max go through order_compare: strings that parse as temporal values need the oracle
+    for o in vtok::oracle(&xs.iter().collect::<Vec<_>>()) {
+        s.push(' ');
+        s.push_str(&o);
     }
     writeln!(out, "{}", s).unwrap();
 }
@@ -157,6 +147,21 @@ fn generate(rng: &mut Rng, n: usize, tier: &str, out: &mut dyn Write) {
         vec![Value::String("b".into()), Value::String("a".into()), Value::String("b".into())],
         vec![Value::List(vec![Value::Int(1)]), Value::List(vec![Value::Float(1.0)]), Value::List(vec![Value::Int(1)])],
         vec![Value::Float(f64::INFINITY), Value::Float(f64::NEG_INFINITY)],
+        // equal under `==` / Cypher `=` but different bit patterns: signed zeros, alone and nested
+        vec![Value::Float(0.0), Value::Float(-0.0)],
+        vec![Value::Float(-0.0), Value::Float(0.0), Value::Float(3.0)],
+        vec![Value::Float(0.0), Value::Int(0), Value::Float(-0.0)],
+        vec![Value::List(vec![Value::Float(0.0)]), Value::List(vec![Value::Float(-0.0)])],
+        vec![
+            Value::Map([("a".to_string(), Value::Float(-0.0))].into_iter().collect()),
+            Value::Map([("a".to_string(), Value::Float(0.0))].into_iter().collect()),
+            Value::Int(1),
+        ],
+        vec![
+            Value::List(vec![Value::Map([("a".to_string(), Value::Float(0.0))].into_iter().collect())]),
+            Value::List(vec![Value::Map([("a".to_string(), Value::Float(-0.0))].into_iter().collect())]),
+        ],
+        vec![nan.clone(), Value::Float(0.0), Value::Float(-0.0), nan.clone()],
         vec![Value::Float(1e308), Value::Float(1e308)],
     ];
     for g in &groups {
@@ -186,6 +191,13 @@ fn generate(rng: &mut Rng, n: usize, tier: &str, out: &mut dyn Write) {
                 _ => vtok::gen_value(rng, 2),
             })
             .collect();
+        let mut pool = pool;
+        let twin = vtok::gen_near(rng, &pool[0]);
+        pool.push(twin);
+        if rng.chance(1, 3) {
+            pool.push(Value::Float(0.0));
+            pool.push(Value::Float(-0.0));
+        }
         let xs: Vec<Value> = (0..len)
             .map(|_| if rng.chance(1, 8) { Value::Null } else { rng.pick(&pool).clone() })
             .collect();
